@@ -6,6 +6,10 @@ package generator
 // not depend on map iteration order.
 
 import (
+	"go/types"
+
+	"github.com/dave/jennifer/jen"
+	"github.com/jmattheis/goverter/builder"
 	"github.com/jmattheis/goverter/config"
 	"github.com/jmattheis/goverter/method"
 	"github.com/jmattheis/goverter/namer"
@@ -72,5 +76,94 @@ func VerifHarness_C09_ValidateMethods() {
 	verifAssert("both-runs-report", e1 != nil && e2 != nil)
 	if e1 != nil && e2 != nil {
 		verifAssert("same-diagnostic-under-every-iteration-order", e1.Error() == e2.Error())
+	}
+}
+
+// VerifHarness_C09_ContextOrder: a generated helper that calls a function needing several contexts it does not
+// have yet gains them as parameters in the order of that function's parameter list - not in the iteration order
+// of any map (the emitted signature would differ from run to run).
+func VerifHarness_C09_ContextOrder() {
+	mkT := func(name string) *xtype.Type {
+		return xtype.TypeOf(verifNamed(name, verifUserPkg, types.NewStruct(nil, nil)))
+	}
+	src, tgt := mkT("S"), mkT("T")
+	cs := []*xtype.Type{mkT("CtxA"), mkT("CtxB"), mkT("CtxC"), mkT("CtxD")}
+	n := 2 + nondetChoice("contexts", 3)
+	need := map[string]*xtype.Type{}
+	// the function's parameter list: contexts around the source, in a chosen rotation
+	rot := nondetChoice("rotation", n)
+	var args []method.Arg
+	var want []string
+	for i := 0; i < n; i++ {
+		c := cs[(i+rot)%n]
+		need[c.String] = c
+		if i == 1 {
+			args = append(args, method.Arg{Name: "source", Use: method.ArgUseSource, Type: src})
+		}
+		args = append(args, method.Arg{Name: "ctx", Use: method.ArgUseContext, Type: c})
+		want = append(want, c.String)
+	}
+	def := &method.Definition{ID: "func Lookup", Name: "Lookup", Parameters: method.Parameters{Signature: xtype.SignatureOf(src, tgt), Context: need, Source: src, Target: tgt, RawArgs: args}}
+	run := func() []string {
+		g := &generator{namer: namer.New(), conf: &config.Converter{}, lookup: method.NewIndex[generatedMethod](), extend: method.NewIndex[method.Definition]()}
+		helperDef := &method.Definition{ID: "helper", Name: "helper", Generated: true, Parameters: method.Parameters{Signature: xtype.Signature{Source: "h", Target: "h"}, Context: map[string]*xtype.Type{},
+			RawArgs: []method.Arg{{Name: "source", Use: method.ArgUseSource, Type: src}}, Source: src, Target: tgt}}
+		helper := &generatedMethod{Method: &config.Method{Definition: helperDef}}
+		id, err := g.lookup.Register(helper, helperDef)
+		verifAssert("helper-registered", err == nil)
+		helper.IndexID = id
+		avail := map[string]*xtype.Type{}
+		for k, v := range need {
+			avail[k] = v
+		}
+		ctx := &builder.MethodContext{Namer: namer.New(), Conf: helper.Method, SeenNamed: map[string]struct{}{}, AvailableContext: avail, IndexID: id,
+			Signature: helperDef.Signature, Context: map[string]*xtype.JenID{}}
+		_, _, cerr := g.CallMethod(ctx, def, xtype.VariableID(jen.Id("source")), src, tgt, nil)
+		verifAssert("call-built", cerr == nil)
+		var got []string
+		for _, a := range helperDef.RawArgs {
+			if a.Use == method.ArgUseContext {
+				got = append(got, a.Type.String)
+			}
+		}
+		return got
+	}
+	a, b := run(), run()
+	verifReach("contexts-added")
+	verifAssert("every-context-added-once", len(a) == n && len(b) == n)
+	for i := 0; i < n && i < len(a) && i < len(b); i++ {
+		verifAssert("context-parameters-in-the-order-of-the-called-function", a[i] == want[i])
+		verifAssert("context-parameter-order-repeatable", a[i] == b[i])
+	}
+}
+
+// VerifHarness_C17_Setup: two declared methods for one pair (with contexts of which one set contains the other)
+// are ambiguous: setupGenerator reports them wherever they stand among the other methods, update methods are
+// never part of a clash.
+func VerifHarness_C17_Setup() {
+	n := 3 + nondetChoice("methods", 2)
+	clashA := nondetChoice("clash.first", n)
+	clashB := nondetChoice("clash.second", n)
+	clash := clashA < clashB && nondetChoice("clash", 2) == 1
+	updateAt := nondetChoice("update-method", n+1) // n: none
+	conv := &config.Converter{}
+	for i := 0; i < n; i++ {
+		name := []string{"A", "B", "C", "D"}[i]
+		sig := xtype.Signature{Source: "S" + name, Target: "T" + name}
+		if clash && i == clashB {
+			sig = xtype.Signature{Source: "S" + []string{"A", "B", "C", "D"}[clashA], Target: "T" + []string{"A", "B", "C", "D"}[clashA]}
+		}
+		def := &method.Definition{Name: name, ID: "func " + name, Parameters: method.Parameters{Signature: sig, Context: map[string]*xtype.Type{}}}
+		if i == updateAt {
+			def.UpdateTarget = true
+		}
+		conv.Methods = append(conv.Methods, &config.Method{Definition: def, Location: "in.go:" + name})
+	}
+	g, err := setupGenerator(conv, namer.New())
+	verifReach("set-up")
+	real := clash && clashA != updateAt && clashB != updateAt
+	verifAssert("ambiguous-declared-methods-are-reported-at-every-position", (err != nil) == real)
+	if err == nil {
+		verifAssert("every-declared-method-registered", g != nil && len(g.lookup.GetAll()) == n)
 	}
 }
